@@ -70,7 +70,8 @@ ApplyV(f, x, empty, H, log, fuel) ==
   ELSE IF f.t \in {"list", "pair"} /\ x.t \in {"int", "sym"} THEN R(AccessV(f, x), log)
   ELSE IF f.t \in {"list", "pair", "str", "bytes"} /\ x.t = "float" THEN R(SKIP, log)      \* fractional index: not specified
   ELSE IF f.t \in {"partial", "range", "slice", "sym", "symlist", "concat", "str", "bytes"} THEN R(SKIP, log)
-  ELSE IF f.t = "list" /\ x.t \in {"symlist", "range"} THEN R(SKIP, log)
+  ELSE IF f.t = "list" /\ x.t = "range" THEN R(IF IntRange(x) THEN [t |-> "slice", l |-> f, r |-> x] ELSE SKIP, log)     \* a list applied to a range is the slice
+  ELSE IF f.t = "list" /\ x.t = "symlist" THEN R(SKIP, log)
   ELSE R(U, log)
 
 Eval(t, cur, H, log, fuel) ==
@@ -100,15 +101,19 @@ Eval(t, cur, H, log, fuel) ==
          ELSE R(CASE l \in {"neg", "abs", "bnot"} -> (IF IsNum(v) THEN NumOp1(UnIns(l), v) ELSE U)
                   [] l = "not" -> B(~Truthy(v))
                   [] l = "tis" -> B(Truthy(v))
-                  [] l = "lefti" -> (CASE v.t \in {"pair", "concat"} -> v.l [] v.t = "slice" -> v.l [] v.t = "range" -> SKIP [] OTHER -> U), x.log)
+                  [] l = "tyof" -> [t |-> "type", v |-> TypeName(v)]
+                  [] l = "lefti" -> (CASE v.t \in {"pair", "concat"} -> v.l [] v.t = "slice" -> v.l [] v.t = "range" -> v.l [] OTHER -> U), x.log)
     [] k = "suf" ->
          LET x == Eval(t.a[1], cur, H, log, fuel)  v == x.v IN
          IF IsSkip(v) THEN R(SKIP, x.log)
          ELSE IF l = "emp" THEN ApplyV(v, U, TRUE, H, x.log, fuel)
-         ELSE R(CASE l = "righti" -> (CASE v.t \in {"pair", "concat"} -> v.r [] v.t = "slice" -> v.r [] v.t = "range" -> SKIP [] OTHER -> U)
+         ELSE R(CASE l = "righti" -> (CASE v.t \in {"pair", "concat"} -> v.r [] v.t = "slice" -> v.r [] v.t = "range" -> v.r [] OTHER -> U)
                   [] l = "leni" -> (CASE v.t \in {"list", "str", "bytes"} -> MkInt(Len(v.v))
                                       [] v.t = "pair" -> (IF v.l.t = "sym" THEN MkInt(1) ELSE U)
-                                      [] v.t \in {"range", "slice", "concat", "symlist"} -> SKIP
+                                      [] v.t = "concat" -> MkInt(Len(Flat(v)))
+                                      [] v.t = "range" -> (IF IntRange(v) THEN MkInt(RangeLen(v)) ELSE SKIP)
+                                      [] v.t = "slice" -> (IF IntRange(v.r) THEN MkInt(RangeLen(v.r)) ELSE SKIP)
+                                      [] v.t = "symlist" -> SKIP
                                       [] OTHER -> U), x.log)
     [] l = "and" ->
          LET a == Eval(t.a[1], cur, H, log, fuel) IN
@@ -137,6 +142,12 @@ Eval(t, cur, H, log, fuel) ==
                   [] l \in {"eq", "ne"} -> (IF x.t = "expr" \/ y.t = "expr" THEN SKIP ELSE EqV(BinIns(l), x, y))
                   [] l = "xor" -> B(Truthy(x) # Truthy(y))
                   [] l = "acc" -> AccessV(x, y)
+                  [] l = "cat" -> [t |-> "concat", l |-> x, r |-> y]
+                  [] l = "tyeq" -> (IF x.t = "type" \/ y.t = "type" THEN SKIP ELSE B(TypeName(x) = TypeName(y)))
+                  [] l \in {"rng", "rngs", "rnge", "rngx"} ->
+                       (IF ~(IsNum(x) /\ IsNum(y)) THEN U
+                        ELSE IF x.t # "int" \/ y.t # "int" \/ x.v > 2147483000 \/ y.v < -2147483000 THEN SKIP
+                        ELSE [t |-> "range", l |-> MkInt(IF l \in {"rngs", "rngx"} THEN x.v + 1 ELSE x.v), r |-> MkInt(IF l \in {"rnge", "rngx"} THEN y.v - 1 ELSE y.v)])
                   [] OTHER -> SKIP, b.log)
 
 \* a whole program is the body of an expression applied to the input value: a re-apply at its top level starts it again
